@@ -561,6 +561,27 @@ func gen(g *hx.Gen) {
 		}
 		g.Emit("frames K=%s init=%s f=%s", kTable(sel), joinSemi(init), strings.Join(genFrames(r, g, sel, added), ";"))
 	}
+	// concurrent read-only calls through the pipelined client (FIFO matching of replies to callers)
+	nConc := g.Count(60, 2000)
+	for i := 0; i < nConc; i++ {
+		sel := pickSel(r)
+		var init, calls []string
+		for j := r.Range(1, 4); j > 0; j-- {
+			init = append(init, fmt.Sprintf("a.%d.0.0.0.%s", r.Intn(len(sel)), hx.Hex(genComment(r))))
+		}
+		for j := r.Range(2, 40); j > 0; j-- {
+			switch r.Intn(6) {
+			case 0:
+				calls = append(calls, "L")
+			case 1:
+				calls = append(calls, "S")
+			default:
+				calls = append(calls, fmt.Sprintf("s.%d.%d.%s", r.Intn(len(sel)), r.PickInt(0, 0, 2, 4), hx.Hex(r.Bytes(r.Range(1, 8)))))
+			}
+		}
+		g.Stat("conc.pipelined")
+		g.Emit("conc K=%s init=%s calls=%s", kTable(sel), joinSemi(init), joinSemi(calls))
+	}
 	nEnc := g.Count(400, 5000)
 	for i := 0; i < nEnc; i++ {
 		sel := pickSel(r)
@@ -851,9 +872,40 @@ func execEnc(o hx.Op) string {
 	return hx.Hex(req)
 }
 
+func execConc(o hx.Op) string {
+	t := table(o)
+	kr := agent.NewKeyring()
+	for _, op := range semi(o.Str("init")) {
+		doOp(kr.(agent.ExtendedAgent), t, op)
+	}
+	c1, panicked := startServer(kr)
+	defer c1.Close()
+	c1.SetDeadline(time.Now().Add(60 * time.Second))
+	ag := agent.NewClient(c1) // net.Conn is an io.Closer: pipelined mode
+	calls := semi(o.Str("calls"))
+	out := make([]string, len(calls))
+	var wg sync.WaitGroup
+	for i, op := range calls {
+		wg.Add(1)
+		go func() {
+			defer wg.Done()
+			out[i] = hx.Catch(func() string { return doOp(ag, t, op) })
+		}()
+	}
+	wg.Wait()
+	select {
+	case <-panicked:
+		return "panic"
+	default:
+	}
+	return strings.Join(out, "|")
+}
+
 func exec(line string) string {
 	o := hx.Parse(line)
 	switch o.Cmd {
+	case "conc":
+		return execConc(o)
 	case "seq":
 		return execSeq(o)
 	case "frames":
